@@ -147,6 +147,10 @@ def store_paths(repo: Repo, rep, P: str):
                                 rep.ok(f"{P}.R2", fq, norm(hit)[:100], f"private helper of {aq}: " + CV_WRITERS[f"{arel}:{aq}"])
                             elif fq in CV_WRITERS:
                                 rep.ok(f"{P}.R2", fq, norm(hit)[:100], CV_WRITERS[fq])
+                            elif isinstance(hit, ast.Assign) and isinstance(hit.value, ast.Subscript) and isinstance(hit.value.value, ast.Attribute) \
+                                    and hit.value.value.attr == "controller_values":
+                                # whoever does it: the stored value is read from a controller_values table, where only validated values are
+                                rep.ok(f"{P}.R2", fq, norm(hit)[:100], "copy of an already validated value (read from another controller_values table)")
                             else:
                                 rep.violation(f"{P}.R2", fq, norm(hit)[:100],
                                               "a controller value is stored without going through Controller.set_initial / set_raw: "
